@@ -123,10 +123,60 @@ def dispatch(facts, rep, R1):
             rep.violation(R1, b.name, "dispatch:%s:%s" % (m, v), "CompressionFormat::%s on %s calls %s, specified %s with the caller's argument, result unchanged" % (m, v, got or "nothing", want), "%s:%s" % (b.file, b.line))
 
 
+def derived_slices(b, param):
+    """locals that stand for `param` or a tail `param[k..]` of it, possibly chosen on several paths
+    (`let block = if wrapped { &bytes[4..] } else { bytes }`):  local -> [(k, defining block)]"""
+    out = {}
+    for l in range(len(b.locals)):
+        if b.local_ty(l) not in ("&[u8]", "&mut [u8]") or l <= b.argc:
+            continue
+        ds = b.defs().get(l, [])
+        if len(ds) < 2:
+            continue         # single definitions are expanded into the terms already
+        offs = []
+        for (bi, si, kind, payload) in ds:
+            if kind == "assign":
+                k = slice_offset(b.term_of_rvalue(payload["rv"]), param)
+            elif kind == "call":
+                k = slice_offset(("call", callee_names(payload)[1] or callee_names(payload)[0] or "", tuple(b.term_of_operand(a) for a in payload["args"])), param)
+            else:
+                k = None
+            if k is None:
+                offs = None
+                break
+            offs.append((k, bi))
+        if offs:
+            out[l] = offs
+    return out
+
+
 def raw_accesses(b, param):
     """(block, minimal length needed, description) for every raw index/slice of parameter `param`."""
     out = []
     pt = ("param", param, b.local_name(param))
+    # the same through a re-sliced view of the input that is chosen on several paths: the need is counted from the
+    # start of the input for each choice, and the guard may sit at the choice or at the access
+    der = derived_slices(b, param)
+    for l, offs in der.items():
+        vt = ("var", l, b.local_name(l))
+        for bb, t in b.asserts():
+            m = t["msg"]
+            if m["kind"] == "BoundsCheck" and any(x == vt for x in walk(b.term_of_operand(m["len"]))):
+                idx = b.term_of_operand(m["index"])
+                for (k, dbb) in offs:
+                    need = k + idx[1] + 1 if idx[0] == "const" else None
+                    out.append((bb, need, "%s[%s] with %s = bytes[%d..]" % (b.local_name(l) or "view", fmt(idx), b.local_name(l) or "view", k), t["line"], dbb, vt, k))
+        for bb, t in b.calls():
+            nm = callee_names(t)[1] or callee_names(t)[0] or ""
+            if "ops::Index" in nm and t["args"] and strip_refs(b.term_of_operand(t["args"][0])) == vt:
+                idx = b.term_of_operand(t["args"][1])
+                for (k, dbb) in offs:
+                    need = None
+                    if idx[0] == "agg" and idx[4] and all(x[0] == "const" for x in idx[4]):
+                        need = k + max(x[1] for x in idx[4])
+                    elif idx[0] == "const":
+                        need = k + idx[1] + 1
+                    out.append((bb, need, "%s[%s] with %s = bytes[%d..]" % (b.local_name(l) or "view", fmt(idx)[:30], b.local_name(l) or "view", k), t["line"], dbb, vt, k))
     for bb, t in b.asserts():
         m = t["msg"]
         if m["kind"] == "BoundsCheck":
@@ -154,9 +204,10 @@ def raw_accesses(b, param):
     return out
 
 
-def length_guard(b, bb, param):
-    """Largest K such that a dominating branch `len(param) < K` leaves the function before block bb."""
-    pt = ("param", param, b.local_name(param))
+def length_guard(b, bb, param, of=None):
+    """Largest K such that a dominating branch `len(param) < K` leaves the function before block bb.
+    (`of`: measure another slice value -- a re-sliced view held in a local -- instead of the parameter.)"""
+    pt = of if of is not None else ("param", param, b.local_name(param))
     best = 0
     for bi in range(len(b.blocks)):
         if bi == bb or not b.dominates(bi, bb):
@@ -343,12 +394,16 @@ def lz13_classes(facts, rep, R1, R2):
             rep.inconc(R2, "anchor %s::decompress missing" % fmtn)
             continue
         acc = raw_accesses(b, 2)
-        for bb, need, desc, line in acc:
+        for rec in acc:
+            bb, need, desc, line = rec[:4]
             where = "%s:%s" % (b.file, line)
             if need is None:
                 rep.inconc(R2, "%s: access %s not understood" % (b.name, desc))
                 continue
             have = length_guard(b, bb, 2)
+            if len(rec) > 4:
+                # the guard may sit where the view was chosen, or be a test of the view's own length
+                have = max(have, length_guard(b, rec[4], 2), rec[6] + length_guard(b, bb, 2, of=rec[5]))
             if have >= need:
                 rep.ok(R2, {"fn": b.name, "access": desc, "needs_len": need, "guard_len": have})
             else:
